@@ -68,6 +68,9 @@ type runner struct {
 	asserted int  // calls with a must-accept / must-reject verdict
 	dead     bool // the harness deadline fired
 	nt       bool // non-trivial by the stated rule
+	// hold plans
+	cold      []JWK // the model cache when the hold hook was armed (before the downloads that are parked at it were answered)
+	armedIn   int   // phase in which the hook was armed
 }
 
 // call performs one VerifySignature call of a caller and records the result.
@@ -115,6 +118,13 @@ func (r *runner) startCaller(cr *callerRT, ca Caller, reps int) {
 		ctxText = "over: its deadline is in the past"
 	}
 	cr.cacheAtStart = r.cache
+	if w.held > 0 {
+		// a finished download is parked at the hook: its result was handed to its waiters (they returned), its goroutine
+		// has not finished
+		cr.window = true
+		cr.cacheAlt = r.cold
+		ctxText += fmt.Sprintf("; %d finished download(s) held", w.held)
+	}
 	cr.failsBefore = w.failSinceOK
 	for _, q := range w.reqs {
 		if q.state == reqBlocked {
@@ -124,6 +134,9 @@ func (r *runner) startCaller(cr *callerRT, ca Caller, reps int) {
 	w.running++
 	w.logf("caller %d arrives (%s: key=%s kid=%q alg=%s; context %s)", cr.idx, ca.Kind, ca.Key, ca.Kid, ca.Alg, ctxText)
 	go func() {
+		gid := goid()
+		goCaller.Store(gid, true)
+		defer goCaller.Delete(gid)
 		var results []callRes
 		for i := 0; i < reps; i++ {
 			results = append(results, r.call(cr, ca))
@@ -218,8 +231,8 @@ func (r *runner) deadline(fp, stage string) {
 	if len(tr) > 60 {
 		tr = tr[len(tr)-60:]
 	}
-	r.res.Fail("C13:deadline:"+fp, "no progress within %v while waiting for %s (callers still inside VerifySignature: %v, requests inside the endpoint: %d, download goroutines alive: %d); trace:\n%s",
-		harnessDeadline, stage, stuck, w.inRT, w.updStart-w.updEnd, strings.Join(tr, "\n"))
+	r.res.Fail("C13:deadline:"+fp, "no progress within %v while waiting for %s (callers still inside VerifySignature: %v, requests inside the endpoint: %d, download goroutines alive: %d, of which held after handing out their result: %d); trace:\n%s",
+		harnessDeadline, stage, stuck, w.inRT, w.updStart-w.updEnd, w.held, strings.Join(tr, "\n"))
 }
 
 // syncModel (w.mu held, world quiet): fold the downloads that completed into the model cache.
@@ -247,11 +260,14 @@ func (r *runner) allReturnedAndQuiet() bool {
 func (r *runner) runSched(pi int, ph Phase) {
 	w := r.w
 	events := append([]Event{}, ph.Events...)
-	hasRelease := false
+	hasRelease, hasUnhold := false, false
 	arrived := map[int]bool{}
 	for _, e := range events {
 		if e.Op == "release" {
 			hasRelease = true
+		}
+		if e.Op == "unhold" {
+			hasUnhold = true
 		}
 		if e.Op == "arrive" {
 			arrived[e.Caller] = true
@@ -265,6 +281,11 @@ func (r *runner) runSched(pi int, ph Phase) {
 	if !hasRelease {
 		events = append(events, Event{Op: "release"})
 	}
+	if w.holdArmed && !hasUnhold {
+		// downloads held since the previous phase go on at the latest after this phase's release
+		events = append(events, Event{Op: "unhold"})
+	}
+	arrivals, released := 0, false
 	// a deadline that a context reports also passes: at the latest after everything else
 	for i, ca := range ph.Callers {
 		if ca.Ctx == "near" {
@@ -283,7 +304,11 @@ func (r *runner) runSched(pi int, ph Phase) {
 				continue
 			}
 			ca := ph.Callers[e.Caller]
+			arrivals++
 			r.startCaller(cr, ca, 1)
+			if cr.window {
+				sig.WriteString("~")
+			}
 			if !w.await(func() bool { return r.settled(cr) }) {
 				r.deadline("arrival", fmt.Sprintf("caller %d to return, to start a download, or to evaluate Done() on its own context while it waits for the blocked download (a waiter that never looks at its context cannot honour its own cancellation)", cr.idx))
 				return
@@ -363,6 +388,14 @@ func (r *runner) runSched(pi int, ph Phase) {
 			if parked >= 2 && (!docOK(ph.Fetch) || ph.Fetch.Kind != "serve" || ph.Fetch.Junk > 0 || r.rotation(ph)) {
 				r.nt = true
 			}
+			released = true
+			if ph.Hold && !w.holdArmed {
+				// from now on a download goroutine that has handed out its result stays where it is
+				r.cold, r.armedIn = r.cache, pi
+				w.arm()
+				w.logf("hold: download goroutines stay parked once they have handed their result to the waiters")
+			}
+			heldBefore := w.held
 			w.openGate()
 			if !w.await(r.allReturnedAndQuiet) {
 				r.deadline("waiters-not-woken-on-answer:"+failOrOK(ph.Fetch), "all parked callers to return after the endpoint answered")
@@ -371,10 +404,49 @@ func (r *runner) runSched(pi int, ph Phase) {
 			if extra := len(w.reqs) - before; extra > 0 {
 				r.res.Fail("C13:refresh-loop", "phase %d: %d further download(s) were started while the %d parked callers were woken by the answer (at most one refresh per verification)", pi, extra, parked)
 			}
+			if w.holdArmed && (ph.Hold || w.held > heldBefore) {
+				sig.WriteString(fmt.Sprintf("H%d", w.held-heldBefore))
+				r.res.Label("hold:downloads-held-at-release=" + bucket(w.held-heldBefore))
+			}
 			r.syncModel()
+		case "unhold":
+			where := "before-first-arrival"
+			switch {
+			case r.armedIn == pi:
+				where = "in-the-phase-that-armed-it"
+			case released:
+				where = "after-release"
+			case arrivals > 0:
+				where = "after-arrivals=" + bucket(arrivals)
+			}
+			if !r.doUnhold(&sig, where) {
+				return
+			}
 		}
 	}
 	r.sum.phaseSig = append(r.sum.phaseSig, sig.String())
+}
+
+// doUnhold (w.mu held): the download goroutines parked at the hold hook go on and finish. false: the harness deadline fired.
+func (r *runner) doUnhold(sig *strings.Builder, where string) bool {
+	w := r.w
+	if !w.holdArmed {
+		return true
+	}
+	n := w.unhold()
+	w.logf("unhold: %d held download goroutine(s) go on", n)
+	sig.WriteString(fmt.Sprintf("U%d", n))
+	if n > 0 {
+		r.res.Label("unhold:" + where)
+	} else {
+		r.res.Label("unhold:nothing-held")
+	}
+	if !w.await(w.stable) {
+		r.deadline("unhold", "the download goroutines that were held after handing out their result to finish")
+		return false
+	}
+	r.syncModel()
+	return true
 }
 
 // deadlineMargin: how far behind the reported instant the harness ends a context whose deadline passes (a timer-driven
@@ -571,6 +643,10 @@ func (r *runner) rotation(ph Phase) bool {
 
 func (r *runner) runStorm(pi int, ph Phase) {
 	w := r.w
+	var usig strings.Builder
+	if !r.doUnhold(&usig, "before-storm") {
+		return
+	}
 	w.openGate()
 	w.logf("storm: %d callers start at once, endpoint answers immediately with %s", len(ph.Callers), ph.Fetch.Kind)
 	for i, ca := range ph.Callers {
@@ -585,7 +661,7 @@ func (r *runner) runStorm(pi int, ph Phase) {
 		return
 	}
 	r.syncModel()
-	r.sum.phaseSig = append(r.sum.phaseSig, fmt.Sprintf("S%d", len(ph.Callers)))
+	r.sum.phaseSig = append(r.sum.phaseSig, usig.String()+fmt.Sprintf("S%d", len(ph.Callers)))
 }
 
 func run(c Case) *vkit.Result {
@@ -597,9 +673,13 @@ func run(c Case) *vkit.Result {
 		return res
 	}
 	w := newWorld(c.Sets)
-	r := &runner{c: c, w: w, res: res, sum: &summary{Verdicts: map[string]int{}}}
+	r := &runner{c: c, w: w, res: res, sum: &summary{Verdicts: map[string]int{}}, armedIn: -1}
 	curWorld.Store(w)
 	defer curWorld.Store(nil)
+	// the hook is a package-level variable of the library: set while this case runs (no download goroutine exists yet),
+	// cleared when the case has joined all of its goroutines (see the leak check below)
+	rp.VerifAfterInflightDone = holdHook
+	defer func() { rp.VerifAfterInflightDone = nil }()
 	if keepWorld {
 		lastWorld = w
 	}
@@ -628,6 +708,9 @@ func run(c Case) *vkit.Result {
 		if ph.Fetch.Junk > 0 {
 			res.Label("script:serve+junk")
 		}
+		if ph.Hold {
+			res.Label("hold:phase")
+		}
 		if ph.Mode == "storm" {
 			r.runStorm(pi, ph)
 		} else {
@@ -638,16 +721,24 @@ func run(c Case) *vkit.Result {
 			break
 		}
 	}
+	// the case ends: downloads that are still held go on
+	if !r.dead && w.holdArmed {
+		var usig strings.Builder
+		if r.doUnhold(&usig, "end-of-case") && len(r.sum.phaseSig) > 0 {
+			r.sum.phaseSig[len(r.sum.phaseSig)-1] += usig.String()
+		}
+	}
 	// cleanup: whatever happened, nothing may stay behind
 	if r.dead {
 		w.timedOut = false
 		for _, cr := range w.callers {
 			cr.probe.cancelLocked()
 		}
+		w.unhold()
 		w.openGate()
 		w.await(func() bool { return w.running == 0 && w.quiet() })
 	}
-	if w.running != 0 || !w.quiet() {
+	if w.running != 0 || !w.quiet() || w.held != 0 {
 		res.Fail("C13:leak", "after the case %d caller goroutines, %d endpoint requests and %d download goroutines are still alive", w.running, w.inRT, w.updStart-w.updEnd)
 	}
 	if w.flood {
@@ -703,6 +794,9 @@ func (r *runner) judgePhase(pi int, ph Phase, callers []*callerRT, reqs []*reqRT
 		if cr.sentinel && cr.returned {
 			sca, _ := sentinelFor(r.c)
 			accC, _ := acceptsFrom(cr.cacheAtStart, sca)
+			if cr.window && !accC {
+				accC, _ = acceptsFrom(cr.cacheAlt, sca)
+			}
 			accD := false
 			if dOK {
 				accD, _ = acceptsFrom(dKeys, sca)
@@ -720,6 +814,13 @@ func (r *runner) judgePhase(pi int, ph Phase, callers []*callerRT, reqs []*reqRT
 		res.Label("token:" + ca.Kind)
 		res.Label("ctx:" + map[string]string{"": "no-deadline", "far": "deadline-far", "near": "deadline-near"}[ca.Ctx])
 		accC, _ := acceptsFrom(cr.cacheAtStart, ca)
+		accAlt := false
+		if cr.window {
+			// the finished downloads that were parked when the caller started may or may not have been put into the cache
+			// yet (the statement does not say at which point of a download the cache changes)
+			accAlt, _ = acceptsFrom(cr.cacheAlt, ca)
+			res.Label("window:caller-arrives-while-a-finished-download-is-held")
+		}
 		accD, whyD := false, "fetch-failed"
 		if dOK {
 			accD, whyD = acceptsFrom(dKeys, ca)
@@ -733,7 +834,7 @@ func (r *runner) judgePhase(pi int, ph Phase, callers []*callerRT, reqs []*reqRT
 			accepted := out.err == nil
 			// soundness, for every call: accepted => the token verifies under the selected key of a set the endpoint served
 			if accepted {
-				if !(accC || (accD && servedOK)) {
+				if !(accC || accAlt || (accD && servedOK)) {
 					fp := "C13:sound:unexplained-accept"
 					for _, h := range r.hist {
 						if ok, _ := acceptsFrom(h, ca); ok {
@@ -749,7 +850,18 @@ func (r *runner) judgePhase(pi int, ph Phase, callers []*callerRT, reqs []*reqRT
 			} else if out.payload != nil {
 				res.Fail("C13:payload-on-error", "phase %d caller %d: payload returned together with error %v", pi, i, out.err)
 			}
-			verdict, why := r.expect(ph, cr, ca, accC, accD, whyD, ci)
+			verdict, why := r.expect(ph, cr, ca, cr.cacheAtStart, accC, accD, whyD, ci)
+			if cr.window {
+				// judged twice: with the cache that holds the parked downloads' keys and with the cache before them; a
+				// refresh, if the token needs one, is a download from the endpoint as it is now in both
+				if v2, _ := r.expect(ph, cr, ca, cr.cacheAlt, accAlt, accD, whyD, ci); v2 != verdict {
+					verdict, why = "grey", "window-depends-on-when-the-cache-is-updated"
+				}
+				res.Label("window:" + verdict + ":" + why)
+				if why == "fetch" || strings.HasPrefix(why, "unknown") || strings.HasPrefix(why, "no-key") || strings.HasPrefix(why, "wrong-key") || why == "ambiguous" || why == "fetch-failed" {
+					r.nt = true // needs a refresh while a finished download is held
+				}
+			}
 			if verdict == "must-accept" && ca.Ctx == "near" && !cr.expired && !cr.retAt.Before(cr.probe.deadline) {
 				// t1 of the bracket: the instant the caller's own context reports as its deadline was reached before the call
 				// returned, although the context had not ended yet: the statement's "own context still live" is not settled
@@ -804,6 +916,16 @@ func (r *runner) judgePhase(pi int, ph Phase, callers []*callerRT, reqs []*reqRT
 					case cr.collateral >= 0:
 						res.Fail("C13:waiter-failed-by-owner-cancel", "phase %d caller %d (%s key=%s kid=%q, own context live) failed with %q: it was parked on the shared download, which ran on the context of caller %d and was aborted when that caller's context was cancelled; the endpoint serves its key (%s)",
 							pi, i, ca.Kind, ca.Key, ca.Kid, out.err, cr.collateral, D.Kind)
+					case cr.window && why == "fetch" && cr.reqInLife == 0 && !cr.servedInLife && cr.parked == nil:
+						// no download at all during the call: it was handed what a download that had finished before the
+						// call started had fetched
+						prev := "a download"
+						if cr.reqAtStart > 0 && cr.reqAtStart <= len(reqs) {
+							q := reqs[cr.reqAtStart-1]
+							prev = fmt.Sprintf("download #%d (answered in phase %d: %s)", q.id, q.phase, r.c.Phases[q.phase].Fetch.Kind)
+						}
+						res.Fail("C13:stale-result-of-finished-download", "phase %d caller %d (%s key=%s kid=%q alg=%s, own context live) was rejected without any download: %v; when it arrived %s had already handed its result to its waiters but its goroutine had not finished yet (held before it stores the keys and frees the in-flight slot), and the call was given that finished download's result instead of starting a refresh; the endpoint serves its key at the time of the call (%s); cached %v / before the held download %v",
+							pi, i, ca.Kind, ca.Key, ca.Kid, ca.Alg, out.err, prev, D.Kind, cr.cacheAtStart, cr.cacheAlt)
 					case !cr.cancelled && (errors.Is(out.err, context.Canceled) || errors.Is(out.err, context.DeadlineExceeded)):
 						res.Fail("C13:live-caller-cancelled", "phase %d caller %d (%s, own context live) failed with %q although no download it waited for ran on a cancelled context", pi, i, ca.Kind, out.err)
 					default:
@@ -852,7 +974,7 @@ func (r *runner) judgePhase(pi int, ph Phase, callers []*callerRT, reqs []*reqRT
 var short = map[string]string{"must-accept": "A", "must-reject": "R", "grey": "G"}
 
 // expect: the verdict of the model for one call.
-func (r *runner) expect(ph Phase, cr *callerRT, ca Caller, accC, accD bool, whyD string, ci int) (string, string) {
+func (r *runner) expect(ph Phase, cr *callerRT, ca Caller, cache []JWK, accC, accD bool, whyD string, ci int) (string, string) {
 	D := ph.Fetch
 	if ph.Mode == "storm" {
 		// unordered: only what holds in every interleaving. The cache is either the old one or (after a successful
@@ -865,7 +987,7 @@ func (r *runner) expect(ph Phase, cr *callerRT, ca Caller, accC, accD bool, whyD
 		}
 		return "grey", "storm-order-dependent"
 	}
-	switch cacheDecision(cr.cacheAtStart, ca, r.c.SkipRemoteCheck) {
+	switch cacheDecision(cache, ca, r.c.SkipRemoteCheck) {
 	case fromCacheAccept:
 		if cr.precancelled {
 			if cr.expired {
